@@ -1176,7 +1176,8 @@ def main():
         failed += 1
     # mode 3: the receivers (tools/cxx2lean_rx.py)
     import cxx2lean_rx
-    for name, job in cxx2lean_rx.JOBS:
+    import cxx2lean_enc      # mode 4: the encoders (tools/cxx2lean_enc.py)
+    for name, job in cxx2lean_rx.JOBS + [("ENC", cxx2lean_enc.translate_encoders)]:
         out = os.path.join(OUTDIR, name + ".lean")
         try:
             text = job()
